@@ -412,7 +412,7 @@ def streams(rng, tier, seed):
     cases = [gen_case(rng, i) for i in range(n)]
     if tier != "quick":
         cases += exhaustive_small(n)
-    cdir = os.path.join(os.path.dirname(BUILD), "corpus", "C01R")
+    cdir = os.path.join(os.path.dirname(BUILD), "corpus", "C01")
     corpus = []
     if os.path.isdir(cdir):
         for f in sorted(os.listdir(cdir)):
